@@ -1,7 +1,7 @@
 import Solvor.Flow.Lemmas
 /-!
-Flow: the property theorems of C08 (helper lemmas are in `SumLemmas`, `CutLemmas`, `EKLemmas`,
-`EKArcs`).
+Flow: the property theorems of C08 and C09 (helper lemmas are in `SumLemmas`, `CutLemmas`,
+`EKLemmas`, `EKArcs`, `SSPLemmas`, `AssignLemmas`).
 
 Vocabulary (`CutLemmas.lean`): `N : Net` = nodes `V`, pooled capacities `cap`, key lists `adj`
 of `capacity[·]`, terminals; `N.Feasible g` = `0 ≤ g ≤ cap` on `V × V` and conservation at every
@@ -166,5 +166,117 @@ theorem unrepaired_not_maximum :
   refine ⟨by decide, by decide,
     [((0, 1), 1), ((0, 2), 1), ((1, 4), 1), ((2, 3), 1), ((3, 5), 1), ((4, 5), 1)], ?_, by decide⟩
   exact (Net.chkFeasible_iff _ _).1 (by decide)
+
+/-! ## C09 — T-spec: min-cost-flow certificates and their Boolean checkers
+
+Vocabulary (`SSP.lean`, `SSPLemmas.lean`): `I : Inst` = nodes `0..n-1`, arcs with their own
+capacity and cost (parallel / anti-parallel arcs stay separate), supplies `sup`; `I.Feas x` =
+`0 ≤ x i ≤ cap i` on every arc and `out − in = sup` at every node; `I.costF x = Σ cost·x`;
+`I.Slack x p` = every residual arc has non-negative reduced cost under the potentials `p`. -/
+
+namespace Inst
+variable (I : Inst)
+
+/-- **reduced_cost_cert**: a feasible flow meeting all supplies, together with node potentials
+under which every residual arc (forward where `x < cap`, backward where `x > 0`) has non-negative
+reduced cost, has minimum cost among all feasible flows. -/
+theorem reduced_cost_cert (hv : I.Valid) {x p : Nat → Int} (hx : I.Feas x) (hs : I.Slack x p) :
+    ∀ y, I.Feas y → I.costF x ≤ I.costF y :=
+  fun _ hy => I.cost_le_of_slack hv hx hy hs
+
+/-- **infeasible_cut_cert**: a node set whose net supply exceeds the capacity of the arcs leaving
+it, or whose net demand exceeds the capacity of the arcs entering it, rules out every feasible
+flow. -/
+theorem infeasible_cut_cert (hv : I.Valid) (S : List Nat)
+    (h : I.capOutOf S < I.supplyOf S ∨ I.capInOf S < - I.supplyOf S) : ¬ ∃ y, I.Feas y := by
+  rintro ⟨y, hy⟩
+  rcases h with h | h
+  · have := I.supply_le_capOut hv S hy; omega
+  · have := I.neg_supply_le_capIn hv S hy; omega
+
+/-- the feasibility checker decides feasibility of a per-arc flow list -/
+theorem chk_feas_iff (x : List Int) : I.chkFeas x = true ↔ x.length = I.m ∧ I.Feas (fl x) :=
+  I.chkFeas_iff x
+
+/-- **chkMinCost_sound**: if the checker accepts `(x, p, val)` then `x` is a feasible flow,
+`val = Σ cost·x`, and no feasible flow is cheaper. -/
+theorem chkMinCost_sound (hv : I.valid = true) (x p : List Int) (val : Int)
+    (h : I.chkMinCost x p val = true) :
+    I.Feas (fl x) ∧ I.costF (fl x) = val ∧ ∀ y, I.Feas y → val ≤ I.costF y := by
+  unfold chkMinCost at h
+  simp only [Bool.and_eq_true, beq_iff_eq] at h
+  obtain ⟨⟨h1, h2⟩, h3⟩ := h
+  have hx := ((I.chkFeas_iff x).1 h1).2
+  have hs := (I.chkOpt_iff x p).1 h2
+  exact ⟨hx, h3, fun y hy => h3 ▸ I.reduced_cost_cert ((I.valid_iff).1 hv) hx hs y hy⟩
+
+/-- **chkInfeas_sound**: if the checker accepts the node set then no feasible flow exists. -/
+theorem chkInfeas_sound (hv : I.valid = true) (S : List Nat) (h : I.chkInfeas S = true) :
+    ¬ ∃ y, I.Feas y := by
+  unfold chkInfeas at h
+  simp only [Bool.or_eq_true, decide_eq_true_eq] at h
+  exact I.infeasible_cut_cert ((I.valid_iff).1 hv) S h
+
+/-- an accepted optimum and an accepted infeasibility cut exclude each other, and two accepted
+optima have the same value: the certified verdict on an instance is unique -/
+theorem certified_verdict_unique (hv : I.valid = true) {x p x' p' : List Int} {val val' : Int}
+    (h : I.chkMinCost x p val = true) :
+    (∀ S, I.chkInfeas S = false) ∧ (I.chkMinCost x' p' val' = true → val = val') := by
+  obtain ⟨f1, f2, f3⟩ := I.chkMinCost_sound hv x p val h
+  refine ⟨fun S => ?_, fun h' => ?_⟩
+  · cases hS : I.chkInfeas S
+    · rfl
+    · exact absurd ⟨_, f1⟩ (I.chkInfeas_sound hv S hS)
+  · obtain ⟨g1, g2, g3⟩ := I.chkMinCost_sound hv x' p' val' h'
+    have a := f3 _ g1
+    have b := g3 _ f1
+    omega
+
+end Inst
+
+/-! ## C09 — assignment as a unit-capacity bipartite flow -/
+
+/-- **assignment_of_flow** (assignment ⇒ flow): every valid assignment (columns in range, no
+column twice, `min n m` rows assigned) is a feasible integral flow of `solve_assignment`'s network
+with demand `min n m`, of the same cost. -/
+theorem assignment_of_flow_partial {n m : Nat} (C : Nat → Nat → Int) {α : Nat → Option Nat}
+    (h : ValidAssign n m α) :
+    (assignInst n m C).Feas (flowOfAssign n m C α) ∧
+    (assignInst n m C).costF (flowOfAssign n m C α) = assignCost n C α :=
+  assign_feasible C h
+-- FULL STATEMENT (not proved): additionally, for every `y` with `(assignInst n m C).Feas y` there
+-- is `α` with `ValidAssign n m α ∧ assignCost n C α = (assignInst n m C).costF y` (flow ⇒ assignment),
+-- so that the minimum over flows is attained by an assignment.
+
+/-- consequence used by the check: a certified optimum of the assignment network is a lower bound
+for every valid assignment, so a returned valid assignment whose cost equals it is optimal. -/
+theorem assignment_optimal_of_cert {n m : Nat} (C : Nat → Nat → Int) {x p : List Int} {val : Int}
+    (h : (assignInst n m C).chkMinCost x p val = true) :
+    ∀ α, ValidAssign n m α → val ≤ assignCost n C α := by
+  intro α hα
+  have hv : (assignInst n m C).valid = true := ((assignInst n m C).valid_iff).2 (assignInst_valid n m C)
+  obtain ⟨_, _, f3⟩ := (assignInst n m C).chkMinCost_sound hv x p val h
+  obtain ⟨g1, g2⟩ := assign_feasible C hα
+  rw [← g2]; exact f3 _ g1
+
+/-- the checker for a returned assignment list decides exactly what the property asks of it -/
+theorem chkAssign_sound {n m : Nat} {a : List Int} (h : chkAssign n m a = true) :
+    a.length = n ∧ ValidAssign n m (aOf a) := chkAssign_valid h
+
+/-! ### non-vacuity (C09) -/
+
+/-- the witness of DESIGN §4 C09 (anti-parallel arcs and parallel arcs of different cost):
+minimum cost 20, where the unchanged `min_cost_flow` reports −8 -/
+def witnessInst : Inst := Inst.ofST 2 [⟨1, 0, 2, 2⟩, ⟨0, 1, 1, 5⟩, ⟨0, 1, 4, 5⟩, ⟨1, 0, 3, 5⟩] 0 1 4
+
+example : witnessInst.valid = true := by decide
+-- hypotheses of `chkMinCost_sound` / `reduced_cost_cert`: met by the model's own answer
+example : witnessInst.chkMinCost [0, 1, 3, 0] [-5, 0] 20 = true := by decide
+example : (witnessInst.ssp 0 1 4).cost = 20 := by decide
+-- hypotheses of `chkInfeas_sound` / `infeasible_cut_cert`: demand 9 exceeds the capacity 5 out of {0}
+example : (Inst.ofST 2 [⟨1, 0, 2, 2⟩, ⟨0, 1, 1, 5⟩, ⟨0, 1, 4, 5⟩] 0 1 9).chkInfeas [0] = true := by decide
+-- hypotheses of `assignment_of_flow_partial` / `chkAssign_sound`: a 2×3 assignment
+example : chkAssign 2 3 [2, 0] = true := by decide
+example : ValidAssign 2 3 (aOf [2, 0]) := (chkAssign_sound (by decide)).2
 
 end Solvor.Flow
